@@ -36,6 +36,8 @@ MODELS = {
             lambda sp, sync: "(z_init %d %s, (@nil (Z * val * list mdi), @nil nat))" % (sp["maxsize"], "true" if sync else "false")),
     "map_async": ("Async.MapAsync", "map_async_model",
                   lambda sp, sync: "(m_init %d %s, (@nil (Z * val * list mdi), @nil nat))" % (sp["parallelism"], "true" if sync else "false")),
+    "plain": ("Async.Plain", "plain_model",
+              lambda sp, sync: "(pl_init %s, (@nil (Z * val * list mdi), @nil nat))" % ("true" if sync else "false")),
 }
 
 
@@ -100,9 +102,10 @@ def correspondence(tag, cases_obs, shard=150):
 
 
 class AGen:
-    def __init__(self, rng, max_actions=18):
+    def __init__(self, rng, max_actions=18, drain=True):
         self.r = rng
         self.max_actions = max_actions
+        self.drain = drain
 
     def spec(self, kind):
         r = self.r
@@ -127,6 +130,8 @@ class AGen:
             return {"k": kind, "maxsize": r.choice([1, 1, 2, 3])}
         if kind == "map_async":
             return {"k": kind, "parallelism": r.choice([1, 1, 2, 3])}
+        if kind == "plain":
+            return {"k": kind}
         raise KeyError(kind)
 
     def case(self, kind):
@@ -137,6 +142,7 @@ class AGen:
         nrc = 0
         n = r.randint(1, self.max_actions)
         nsrc = 2 if kind == "zip" else 1
+        self.nextval = 0
         pe = r.choice([0.3, 0.5, 0.7])
         for _ in range(n):
             u = r.random()
@@ -146,13 +152,22 @@ class AGen:
                     for _ in range(r.choice([1, 1, 2])):
                         md.append([nrc, r.random() < 0.85])
                         nrc += 1
-                acts.append(["emit", r.randrange(nsrc), val_to_json(r.choice([0, 1, 2, 3, 4, 5])), md])
+                self.nextval += 1
+                acts.append(["emit", r.randrange(nsrc), val_to_json(self.nextval), md])
             elif u < pe + (1 - pe) * 0.55:
                 acts.append(["ack"])
             elif kind == "map_async" and r.random() < 0.6:
                 acts.append(["task", r.choice([0, 0, 1, 2])])
             else:
                 acts.append(["adv", r.choice([1, 1, 2, 3, 4, 4, 5, 8])])
+        if self.drain:
+            k = sum(1 for a in acts if a[0] == "emit") + 3
+            for _ in range(k):
+                acts.append(["ack"])
+                if kind == "map_async":
+                    acts.append(["task", 0])
+                acts.append(["adv", 8])
+            acts.append(["ack"])
         return {"node": sp, "sink": sink, "actions": acts}
 
 
